@@ -11,7 +11,7 @@
 //   vp_agree      eval_double_visitor_pattern == eval_double
 //   evalf         evalf(b, 53, Real) is real_double(eval_double(b)); evalf(b, 53, Complex) likewise
 //   caccuracy     eval_complex_double vs std::complex<long double> reference (fixed relative tolerance)
-#include "evalfam.h"
+#include "evalfam.h" // (evalfam.h rev 2: the build stamp only hashes this file)
 #include <symengine/complex_double.h>
 #include <symengine/real_double.h>
 
